@@ -142,10 +142,10 @@ NetTransRow(r) ==
                e \in {x \in rets : Has2(x, "rtag") /\ x.rtag # x.tag}}
            \cup {<<"C16", "HandlerErrorLostOrChanged", <<r.case, e.tag>>>> :
                e \in {x \in replies : Has2(x, "err") /\ \E y \in rets : y.tag = x.tag /\
-                         (~Has2(y, "err") \/ (y.err # x.err /\ ~\E i \in 1..Len(r.ops) : r.ops[i].fault \in {"cutreq", "cutresp"}))}}
+                         (~Has2(y, "err") \/ (y.err # x.err /\ ~\E i \in 1..Len(r.ops) : r.ops[i].fault \in {"cutreq", "cutresp", "cutpooled"}))}}
            \* without a connection fault every exchange returns what its handler produced: an error only if the handler gave one
            \cup {<<"C16", "ErrorWithoutFault", <<r.case, e.tag, e.err>>>> :
-               e \in {x \in rets : Has2(x, "err") /\ (\A i \in 1..Len(r.ops) : r.ops[i].fault \notin {"cutreq", "cutresp"})
+               e \in {x \in rets : Has2(x, "err") /\ (\A i \in 1..Len(r.ops) : r.ops[i].fault \notin {"cutreq", "cutresp", "cutpooled"})
                                    /\ ~\E p \in replies : p.tag = x.tag /\ Has2(p, "err")}}
            \cup {<<"C16", "DeliveredTwice", <<r.case, e.tag>>>> :
                e \in {x \in recvs : Cardinality({y \in recvs : y.tag = x.tag}) > 1}}
